@@ -248,6 +248,7 @@ func runC18(c *Ctx) {
 		}
 	}
 	c.listingKeepsEveryRevision()
+	c.adoptionOnEveryReconcile()
 	c.convertedUnmodified("C18.1")
 	// the control's adoption patches every revision it is handed: its loop is left early only with an error
 	if m := ifaceMethod(c.P, load.CtrlPkg, "StatefulSetControlInterface", "AdoptOrphanRevisions"); m != nil {
@@ -670,4 +671,46 @@ func innermostBreakTarget(body *ast.BlockStmt, b *ast.BranchStmt) ast.Node {
 		}
 	}
 	return nil
+}
+
+// adoptionOnEveryReconcile: "revisions carrying the upgrade marker are found, label-synced and adopted": a migrated set
+// arrives with the built-in set's status (currentRevision and all), so nothing in the set says whether its revisions
+// have been taken over yet: in sync no path reaches the reconcile proper without having passed the adoption of orphan
+// revisions (the paused and the not-found exits come before both).
+func (c *Ctx) adoptionOnEveryReconcile() {
+	const rule = "C18.4-adoption-is-attempted-on-every-reconcile"
+	sy := c.Func(load.CtrlPkg, "StatefulSetController.sync")
+	adopt := c.Func(load.CtrlPkg, "StatefulSetController.adoptOrphanRevisions")
+	if sy == nil || adopt == nil {
+		return
+	}
+	fn, _ := c.Analysis(sy)
+	info := sy.Pkg.TypesInfo
+	var stops []ast.Node
+	var targets []*ast.CallExpr
+	for _, bd := range fn.Bodies() {
+		for _, call := range callsIn(bd, true) {
+			f := gf.StaticCallee(info, call)
+			if f == nil {
+				continue
+			}
+			if f.Origin() == adopt.Obj {
+				if st := stmtOf(bd, call); st != nil {
+					stops = append(stops, st)
+				}
+			}
+			if f.Name() == "syncStatefulSet" || f.Name() == "getPodsForStatefulSet" {
+				targets = append(targets, call)
+			}
+		}
+	}
+	if len(stops) == 0 || len(targets) == 0 {
+		c.Bad(rule, "sync", sy.Decl.Pos(), "sync does not call the adoption of orphan revisions, or the reconcile proper, directly")
+		return
+	}
+	aU := fn.FromUntil(sy.Decl.Body.List[0], gf.TrueState(), stops...)
+	for i, t := range targets {
+		c.Check(!aU.StateAtExpr(t).Reachable(), rule, fmt.Sprintf("sync: %s [%d]", types.ExprString(t.Fun), i), t.Pos(), "unreachable without having passed adoptOrphanRevisions",
+			"the reconcile can go ahead without the adoption of orphan revisions having been attempted: the revisions of a migrated set (whose status already names a current revision) are never label-synced nor adopted")
+	}
 }
